@@ -153,3 +153,65 @@ Theorem C19_after_close_prepared_fails c s ca p :
 Proof. exact (after_close_prepared_fails c s ca p). Qed.
 Print Assumptions C19_after_close_prepared_fails.
 
+
+(* ---- a prepared message IS its WriteMessage, for whole programs: Proofs/WriterEventsC.v ----
+   For every configuration, key oracle and program of the case format (WritePreparedMessage mixed
+   with every other write call, any number of prepared messages sharing the cache, sent any
+   number of times), the Spec events of the wire are the output of the abstract writer of
+   Spec/WriterSpec.v run on the program where each prepared send is read as AMessage of its
+   creation payload ([aop_of]).  Without negotiated compression this is an equation between
+   event lists; with compression a compressed message carries its deflate stream, which for a
+   prepared send is the stream of the send that rendered the cached frame for (id, key). *)
+Require Import WS.Spec.WriterSpec WS.Proofs.WriterEventsP WS.Proofs.WriterEventsZ WS.Proofs.WriterEventsC.
+
+Theorem C19_wire_events_prepared_uncompressed :
+  forall pay c ks ops fs,
+    14 < w_bufsize c -> w_bufsize c < 2^62 -> w_negotiated c = false ->
+    Forall (fun k => length k = 4%nat) ks -> Forall cop_small ops -> Forall (op_for pay) ops ->
+    let r := crun c (init_wst c ks None, []) ops in
+    let A := arun false ast0 (combine (map aop_of ops) (cres (fst r))) in
+    Forall wf_frame fs -> wire_of (evs (fst (snd r))) = encode_frames fs ->
+    map sent_of_event (events_of fs) = a_out A /\
+    (a_dead A = false -> a_open A = None -> snd (events_from None fs) = None).
+Proof. exact wire_events_prepared_uncompressed. Qed.
+Print Assumptions C19_wire_events_prepared_uncompressed.
+
+Theorem C19_wire_events_prepared :
+  forall pay c ks ops fs,
+    14 < w_bufsize c -> w_bufsize c < 2^62 ->
+    Forall (fun k => length k = 4%nat) ks -> Forall cop_small ops -> Forall (op_for pay) ops ->
+    (w_negotiated c = false \/ czgood c (init_wst c ks None, []) ops) ->
+    let r := crun c (init_wst c ks None, []) ops in
+    let res := cres (fst r) in
+    let A := arun (w_negotiated c) ast0 (combine (map aop_of ops) res) in
+    let Z := zrun (w_negotiated c) zst0 (combine (cz_ops c (init_wst c ks None, []) [] ops) res) in
+    Forall wf_frame fs -> wire_of (evs (fst (snd r))) = encode_frames fs ->
+    zerase Z = A /\
+    map sent_of_event (events_of fs) = map zwire (z_out Z) /\
+    Forall zstr_ok (z_out Z) /\
+    (a_dead A = false -> a_open A = None -> snd (events_from None fs) = None).
+Proof. exact wire_events_prepared. Qed.
+Print Assumptions C19_wire_events_prepared.
+
+Theorem C19_abstract_flags_exact_prepared :
+  forall pay c ks ops,
+    14 < w_bufsize c -> w_bufsize c < 2^62 ->
+    Forall (fun k => length k = 4%nat) ks -> Forall cop_small ops -> Forall (op_for pay) ops ->
+    (w_negotiated c = false \/ czgood c (init_wst c ks None, []) ops) ->
+    let r := crun c (init_wst c ks None, []) ops in
+    let A := arun (w_negotiated c) ast0 (combine (map aop_of ops) (cres (fst r))) in
+    (a_dead A = true <-> werr (fst (snd r)) <> None) /\
+    (a_dead A = false -> (a_open A = None <-> cur (fst (snd r)) = None)) /\
+    (a_dead A = false -> a_comp A = wcomp (fst (snd r))).
+Proof. exact abstract_flags_exact_prepared. Qed.
+Print Assumptions C19_abstract_flags_exact_prepared.
+
+(* the invariant on the shared cache behind it: every cached frame is a complete message for its
+   key, uncompressed keys carry the creation payload, compressed keys the recorded stream *)
+Theorem C19_cache_invariant_step :
+  forall pay c s ca g o,
+  CZ pay ca g -> op_for pay o -> cop_small o ->
+  match o with COp _ => True | CPrepared p => prep_flate_ok c (s, ca) p end ->
+  CZ pay (snd (snd (cstep c (s, ca) o))) (gstep c (s, ca) g o).
+Proof. exact cstep_CZ. Qed.
+Print Assumptions C19_cache_invariant_step.
